@@ -72,3 +72,13 @@ func (v *VerifC09Session) BatchRoutingKey(stmt string, values []interface{}) ([]
 	b.Entries = append(b.Entries, BatchEntry{Stmt: stmt, Args: values}, BatchEntry{Stmt: "other", Args: nil})
 	return b.GetRoutingKey()
 }
+
+// NewQuery is Session.Query on the seeded session: a pooled *Query the harness then drives
+// through its public methods (Bind, RoutingKey, WithContext, GetRoutingKey, Release).
+func (v *VerifC09Session) NewQuery(stmt string, values []interface{}) *Query {
+	return v.s.Query(stmt, values...)
+}
+
+// NewBatch is Session.NewBatch on the seeded session (driven through Batch.Query, Batch.Entries,
+// Batch.GetRoutingKey).
+func (v *VerifC09Session) NewBatch() *Batch { return v.s.NewBatch(LoggedBatch) }
